@@ -35,7 +35,7 @@ def pmap(fn, chunks):
     if len(chunks) <= 1 or os.environ.get('VF_SERIAL'):
         outs = [fn(c) for c in chunks]
     else:
-        outs = pool().map(fn, chunks)
+        outs = _map_with_watchdog(fn, chunks)
     for o in outs:
         res['evaluations'] += o.get('evaluations', 0)
         res['nontrivial'] += o.get('nontrivial', 0)
@@ -43,6 +43,33 @@ def pmap(fn, chunks):
         if len(res['samples']) < 6:
             res['samples'].extend(o.get('samples', [])[:2])
     return res
+
+
+STALLS = []          # read by vf.main: a bounded check that could not be completed makes the run UNDECIDED, never a pass
+
+
+def _map_with_watchdog(fn, chunks):
+    """pool.map that cannot hang: the code under test may loop for ever or kill its worker (a changed tree!).  When no shard
+    has completed for VF_STALL_S seconds (default 900) the shards still outstanding are abandoned and recorded in STALLS."""
+    import time
+    stall_s = float(os.environ.get('VF_STALL_S', '900'))
+    p = pool()
+    pending = {i: p.apply_async(fn, (c,)) for i, c in enumerate(chunks)}
+    outs, last = [], time.time()
+    while pending:
+        done = [i for i, ar in pending.items() if ar.ready()]
+        if done:
+            last = time.time()
+            for i in done:
+                outs.append(pending.pop(i).get())
+        elif time.time() - last > stall_s:
+            STALLS.append('%s: %d of %d shards gave no answer within %d s (non-terminating code under test or a dead worker)'
+                          % (getattr(fn, '__name__', 'bounded check'), len(pending), len(chunks), stall_s))
+            pending.clear()
+            close()
+        else:
+            time.sleep(0.05)
+    return outs
 
 
 def order(items, seed):
